@@ -113,6 +113,34 @@ def node_strategy(draw, depth, allow_unsup=False):
     return ["rep", inner, draw(_quant(bounded_only)), draw(st.booleans())]
 
 
+def count_unbounded(node):
+    k = node[0]
+    if k == "rep":
+        q = node[2]
+        own = 1 if (q in ("*", "+") or (isinstance(q, list) and q[0] == "n,")) else 0
+        return own + count_unbounded(node[1])
+    if k == "grp":
+        return count_unbounded(node[2])
+    if k in ("alt", "seq"):
+        return sum(count_unbounded(n) for n in node[1])
+    return 0
+
+
+def is_cheap_to_match(node):
+    """no quantifier inside a quantifier and at most two open-ended quantifiers: matching (also *failing* to
+    match, which is what re.search / Hypothesis' from_regex do a lot) stays polynomial with a small degree"""
+    return rep_depth(node) <= 1 and count_unbounded(node) <= 2
+
+
+@st.composite
+def cheap_pattern_strategy(draw, max_depth=2):
+    """patterns for str nodes of schemas (every check except C09, which owns the full grammar)"""
+    p = draw(pattern_strategy(max_depth))
+    if not is_cheap_to_match(p["body"]):
+        p = dict(p, body=["seq", [draw(_atoms()), ["rep", draw(_atoms()), draw(_quant(True)), False]]])
+    return p
+
+
 @st.composite
 def pattern_strategy(draw, max_depth=4):
     depth = draw(st.integers(0, max_depth))
